@@ -27,7 +27,7 @@ CLAIMS = {
         "engine": "ai",
         "technique": AI_TECH + "; positional layout comparison against Annex 10 header slices; AST format-site rule for the text form",
         "design_ref": "DESIGN.md §4 C04",
-        "text": "Decides for every grammar path which frame bits each decoded field is made of: header fields tile the Annex 10 slices, the announced address is f[8..32), a trailing address/parity field is the last 24 bits (equivalently every payload variant consumes 56 bits), identifier re-reads restart at the identifier's first bit; plus the structural necessary conditions of the text round trip (three {:02x} bytes in order; radix-16 parse keeping big-endian bytes 1..3). Genuine defects found are listed in known_findings.json by exact key.",
+        "text": "Decides for every grammar path which frame bits each decoded field is made of: header fields tile the Annex 10 slices, the announced address is f[8..32), a trailing address/parity field is the last 24 bits (equivalently every payload variant consumes 56 bits), identifier re-reads restart at the identifier's first bit; plus the structural necessary conditions of the text round trip (three {:02x} bytes in order; radix-16 parse keeping big-endian bytes 1..3). Genuine defects found are listed in known_findings.json by exact key. Also decides the name -> code tables of the header enumerations (flight status, capability, downlink request, utility message type, KE, control-field type) by interpreting each enum's own reader.",
         "note": TRUST,
     },
     "C06": {
@@ -39,7 +39,7 @@ CLAIMS = {
     "C07": {
         "engine": "ai", "technique": AI_TECH + "; normal-form comparison of float formulas; exhaustive tables for integer parts",
         "design_ref": "DESIGN.md §4 C07",
-        "text": "Decides the type-19 field slices and subtype selection, the airspeed and GNSS-baro transforms on every raw value, and for calculate(): integer components and vertical rate on every raw value/sign (tables), track/speed formulas as normal forms (atan2 argument order, 180/pi, +360 wrap under <0, hypot), None for 'no information' zeros and non-ground-speed subtypes, x4 for the supersonic subtype. Float rounding of track/speed is not decided.",
+        "text": "Decides the type-19 field slices and subtype selection, the airspeed and GNSS-baro transforms on every raw value, and for calculate(): integer components and vertical rate on every raw value/sign (tables), track/speed formulas as normal forms (atan2 argument order, 180/pi, +360 wrap under <0, hypot), None for 'no information' zeros and non-ground-speed subtypes, x4 for the supersonic subtype. Float rounding of track/speed is not decided. Also decides the 0/1 meaning of the direction and sign bits (enum code tables); the naming of the vertical-rate source bit is pinned by the repository's tests and not compared with DO-260B.",
         "note": TRUST,
     },
     "C08": {
@@ -51,13 +51,13 @@ CLAIMS = {
     "C09": {
         "engine": "ai", "technique": AI_TECH + " through both bit-shuffling implementations",
         "design_ref": "DESIGN.md §4 C09",
-        "text": "Decides, for DF5, DF21 and type 28, the identity field's slice and the exact result-bit -> frame-bit permutation (hence digits 0-7 and agreement of the three carriers), and the value->variant maps of the two 3-bit enums of type 28. Exhaustive (all bits symbolic).",
+        "text": "Decides, for DF5, DF21 and type 28, the identity field's slice and the exact result-bit -> frame-bit permutation (hence digits 0-7 and agreement of the three carriers), and the value->variant maps of the two 3-bit enums of type 28. Exhaustive (all bits symbolic). Also decides the name -> code tables of the emergency state and the type-28 subtype.",
         "note": TRUST,
     },
     "C10": {
         "engine": "ai", "technique": AI_TECH + "; positional layout comparison against DO-260B/ICAO 9871 slices; exhaustive tables for scalings",
         "design_ref": "DESIGN.md §4 C10",
-        "text": "Decides the ME/OperationStatus/BDS dispatch tables (all identifier values), that every field of the interpreted payloads reads part of exactly one reference slice in order MSB-first, the three scalings on every raw value, and big-endian contexts of multi-byte reads. Field *names* are not compared with the standard (positional comparison); f32 representation error is not decided.",
+        "text": "Decides the ME/OperationStatus/BDS dispatch tables (all identifier values), that every field of the interpreted payloads reads part of exactly one reference slice in order MSB-first, the three scalings on every raw value, and big-endian contexts of multi-byte reads. Field *names* are not compared with the standard (positional comparison); f32 representation error is not decided. Also decides the name -> code tables of surveillance status, CPR format and ADS-B version (3..7 rejected).",
         "note": TRUST,
     },
     "C05": {
@@ -75,19 +75,19 @@ CLAIMS = {
     "C13": {
         "engine": "ai", "technique": "abstract interpretation of the tracker's position update against a tagged symbolic record (get_position stubbed); polynomial normal form of the distance",
         "design_ref": "DESIGN.md §4 C13",
-        "text": "Decides: the pairing call gets the new report in the slot of its parity plus the stored other slot; every rejecting path ends with the empty record; rejection/publication are guarded by `haversine(receiver, candidate) > max_range` and `> 100.0` from the previous position; the published distance's normal form is the haversine formula with R = 6371. Numeric accuracy / threshold behaviour of f64 are not decided; the history-level claim follows by induction (not mechanised).",
+        "text": "Decides: the pairing call gets the new report in the slot of its parity plus the stored other slot; every rejecting path ends with the empty record; rejection/publication are guarded by `haversine(receiver, candidate) > max_range` and `> 100.0` from the previous position; the published distance's normal form is the haversine formula with R = 6371. Numeric accuracy / threshold behaviour of f64 are not decided; the history-level claim follows by induction (not mechanised). Also decides that the 100 km test measures the haversine distance between the previous position and the candidate, and that a candidate passing both tests never ends with the record emptied.",
         "note": TRUST,
     },
     "C14": {
         "engine": "ai", "technique": "abstract interpretation of Airplanes::action / aircraft_details / all_position against tagged symbolic records; enumeration of record shapes for the views",
         "design_ref": "DESIGN.md §4 C14",
-        "text": "Decides per frame kind which of callsign/heading/speed/vertical rate are overwritten and with which of the frame's own values (others untouched); that position and distance are written together; that the element appended to the track is the old record; and, over all 24 Some/None shapes of a record, that aircraft_details is Some exactly for position+altitude+distance and copies the record's own values, and all_position lists exactly the records with a position. History-level ordering follows by induction (not mechanised).",
+        "text": "Decides per frame kind which of callsign/heading/speed/vertical rate are overwritten and with which of the frame's own values (others untouched); that position and distance are written together; that the element appended to the track is the old record; and, over all 24 Some/None shapes of a record, that aircraft_details is Some exactly for position+altitude+distance and copies the record's own values, and all_position lists exactly the records with a position. History-level ordering follows by induction (not mechanised). The record may keep its previous velocity only on paths where calculate() returned None (traced returns).",
         "note": TRUST,
     },
     "C15": {
         "engine": "ai", "technique": "abstract interpretation of prune's retain closure (decision table + comparison operands) and of the last_time refresh in action",
         "design_ref": "DESIGN.md §4 C15",
-        "text": "Decides ONLY the structural skeleton of expiry: the retain decision table over {clock error, elapsed < T, elapsed >= T}, the operands (last_time.elapsed() vs Duration::from_secs(filter_time), operator <), and that every DF17/DF18 frame sets last_time = SystemTime::now() on all paths. Everything involving real elapsed time is NOT decided.",
+        "text": "Decides ONLY the structural skeleton of expiry: the retain decision table over {clock error, elapsed < T, elapsed >= T}, the operands (last_time.elapsed() vs Duration::from_secs(filter_time), operator <), and that every DF17/DF18 frame sets last_time = SystemTime::now() on all paths. Everything involving real elapsed time is NOT decided. Also decides that every DF17/DF18 frame touches its record (no path through action() skips the refresh).",
         "note": TRUST,
     },
     "C19": {
@@ -123,7 +123,7 @@ CLAIMS = {
     "C18": {
         "engine": "ai", "technique": "abstract interpretation of build_tab_airplanes / Stats::update / Settings::to_xy on named symbolic records; polynomial normal forms of the projection; field-writer sets",
         "design_ref": "DESIGN.md §4 C18",
-        "text": "Decides ONLY a structural skeleton: the ten cells of a table row are the record's own values column by column (blanks only without a position); total_airplanes grows by exactly 1 per added aircraft and most_airplanes takes the tracked count under `most < count`; x = k*scale*(lon - centre lon), y = k*scale*(g(lat) - g(centre lat)) with k > 0 (east right, north up, centre at the origin); zoom/pan/reset write only view fields. NOT decided: what ratatui draws.",
+        "text": "Decides ONLY a structural skeleton: the ten cells of a table row are the record's own values column by column (blanks only without a position); total_airplanes grows by exactly 1 per added aircraft and most_airplanes takes the tracked count under `most < count`; x = k*scale*(lon - centre lon), y = k*scale*(g(lat) - g(centre lat)) with k > 0 (east right, north up, centre at the origin); zoom/pan/reset write only view fields. NOT decided: what ratatui draws. Also decides that reset restores the default view (R5, interpreted) and that the receiver position is written only by Settings::new and the GPS update (R6, writer / mutable-borrow inventory).",
         "note": TRUST,
     },
     "C01": {
@@ -136,7 +136,7 @@ CLAIMS = {
         "engine": "ai",
         "technique": "const-evaluated table comparison + GF(2) bit-provenance abstract interpretation of the checksum loop",
         "design_ref": "DESIGN.md §4 C03",
-        "text": "Decides that Frame.crc is the Mode S syndrome: the evaluated 256-entry table equals the generator's remainder table, and the abstract interpreter derives the checksum on every grammar path as 24 XOR-forms over the frame bits which must equal M(x) mod 0x1FFF409 of the first 56/112 bits (covers byte step, masks, loop bounds, tail XOR, checksum window across id re-reads, length selection). The <=5-bit / <=24-burst detection clause is a mathematical consequence of the generator and is not machine-checked.",
+        "text": "Decides that Frame.crc is the Mode S syndrome: the evaluated 256-entry table equals the generator's remainder table, and the abstract interpreter derives the checksum on every grammar path as 24 XOR-forms over the frame bits which must equal M(x) mod 0x1FFF409 of the first 56/112 bits (covers byte step, masks, loop bounds, tail XOR, checksum window across id re-reads, length selection). The <=5-bit / <=24-burst detection clause is a mathematical consequence of the generator and is not machine-checked. Also decides the same checksum comparison through Frame::from_reader over a scripted one-byte-per-read source (the checksum window is the bytes consumed, not how they were segmented).",
         "note": TRUST,
     },
 }
